@@ -4,14 +4,17 @@ package main
 
 import (
 	"encoding/hex"
+	"errors"
 	"fmt"
 	"os"
 	"strconv"
 	"strings"
+	"time"
 
 	"github.com/NethermindEth/juno/db/memory"
 
 	"github.com/NethermindEth/juno/migration"
+	"github.com/NethermindEth/juno/utils/log"
 	"verif/harness/lib"
 )
 
@@ -135,6 +138,7 @@ func (h *harness) svCorrespondence() {
 		add(fmt.Sprintf("sv.itergo %x", v), natList(it))
 		add(fmt.Sprintf("sv.len %x", v), strconv.Itoa(sv.Len()))
 		add(fmt.Sprintf("sv.high %x", v), strconv.Itoa(sv.HighestBit()))
+		add(fmt.Sprintf("sv.string %x", v), sv.String())
 		w := vals[(k*7+3)%len(vals)]
 		add(fmt.Sprintf("sv.diff %x %x", v, w), fmt.Sprintf("%x", uint64(sv.Difference(migration.SchemaVersion(w)))))
 		add(fmt.Sprintf("sv.union %x %x", v, w), fmt.Sprintf("%x", uint64(sv.Union(migration.SchemaVersion(w)))))
@@ -208,7 +212,7 @@ func (h *harness) svCorrespondence() {
 
 // ---- runner histories -----------------------------------------------------------------------
 
-var wellKinds = []string{"complete", "complete", "complete", "coop", "coop", "coopErr", "nilCtx", "fail", "failState", "beforeFail"}
+var wellKinds = []string{"complete", "complete", "complete", "coop", "coop", "coopErr", "nilCtx", "fail", "failState", "beforeFail", "stateCtxErrLive"}
 var allKinds = append([]string{"inProgress", "ctxErrLive"}, wellKinds...)
 
 func (h *harness) genBeh(r *lib.RNG, n int, wild bool) map[int]migBeh {
@@ -361,6 +365,24 @@ func (h *harness) runnerAll() {
 			}
 		}
 	}
+	// errors that wrap context.Canceled although the RUNNER's context is live (a migration's own derived context
+	// was cancelled), with and without a resume state, against every cancellation tick: only errors.Is(err, ctx.Err())
+	// of the runner's own context may be taken for an interruption
+	for _, reg := range []string{"mm", "em"} {
+		for _, ca := range []int{never, 0, 1, 2, 3, 4, 5, 6} {
+			for _, k0 := range []string{"stateCtxErrLive", "ctxErrLive", "failState", "fail"} {
+				for _, k1 := range []string{"complete", "coop", "stateCtxErrLive"} {
+					for _, init := range []diskSpec{{}, {HasMeta: true, Cur: 0, Last: 3, Ist: map[int]string{0: "a0"}}} {
+						hist := runnerHistory{Init: init, Starts: []startSpec{
+							{Reg: reg, CancelAt: ca, CrashAt: never, Beh: map[int]migBeh{0: {Kind: k0, State: "01"}, 1: {Kind: k1, State: "02"}}},
+							{Reg: reg, CancelAt: never, CrashAt: never},
+						}}
+						h.runnerHistoryCase(hist, "enum-ctxerr")
+					}
+				}
+			}
+		}
+	}
 	// read faults: every subset of {token of 0, token of 1, metadata} unreadable, on a fresh database, on one
 	// with a stored token for either migration and on one with migration 0 applied; behaviours that save,
 	// complete or fail; with and without a cancellation; then a healthy restart
@@ -405,5 +427,61 @@ func (h *harness) runnerAll() {
 			h.res.Sample(8, map[string]any{"kind": "runner-history", "history": hist})
 		}
 		h.runnerHistoryCase(hist, "rand")
+	}
+}
+
+// runWithServerTie: migration.RunWithServer (status_server.go; what node/migration.go wraps migrateFn in when
+// config.HTTP is set) on the real code: the wrapped function runs exactly once and its result — nil, an error,
+// the error of a real runner whose migration fails — is returned unchanged; the database a failing start leaves
+// is the one it leaves without the server (model: `nodeStart` ignores `http`).
+func (h *harness) runWithServerTie() {
+	sentinel := errors.New("verif: migrateFn failed")
+	run := func(fn func() error) (error, int, bool) {
+		calls := 0
+		var got error
+		ok := lib.WithDeadline(60*time.Second, func() {
+			got = migration.RunWithServer(log.NewNopZapLogger(), "127.0.0.1", 0, func() error { calls++; return fn() })
+		})
+		return got, calls, ok
+	}
+	for _, c := range []struct {
+		name string
+		err  error
+	}{{"nil", nil}, {"error", sentinel}} {
+		got, calls, ok := run(func() error { return c.err })
+		h.res.Case("run-with-server|"+c.name, true)
+		h.res.Hit("run-with-server:" + c.name)
+		switch {
+		case !ok:
+			h.res.Violate(lib.Violation{Sig: "status-server-wrapper-hangs", What: "migration.RunWithServer did not return within 60 s", Replay: c.name})
+		case calls != 1:
+			h.res.Violate(lib.Violation{Sig: "status-server-wrapper-runs-migrations-more-or-less-than-once",
+				What: fmt.Sprintf("migration.RunWithServer called the migration function %d times", calls), Replay: c.name})
+		case got != c.err:
+			h.res.Violate(lib.Violation{Sig: "status-server-wrapper-drops-migration-error",
+				What:   fmt.Sprintf("the migration function returned %v, migration.RunWithServer returned %v: with --http a failed upgrade is reported as done (or the reverse)", c.err, got),
+				Replay: c.name})
+		}
+	}
+	// a real runner inside: migration 0 completes, migration 1 fails — with and without the server
+	sp := startSpec{Reg: "mm", CancelAt: never, CrashAt: never, Beh: map[int]migBeh{1: {Kind: "fail"}}}
+	plain := memory.New()
+	rPlain := realStart(plain, sp)
+	served := memory.New()
+	var rServed startResult
+	got, calls, ok := run(func() error {
+		rServed = realStart(served, sp)
+		if rServed.result != "ok" {
+			return sentinel
+		}
+		return nil
+	})
+	h.res.Case("run-with-server|runner", true)
+	h.res.Hit("run-with-server:real-runner")
+	h.res.Compared(1)
+	if !ok || calls != 1 || got != sentinel || rServed.disk != rPlain.disk || rServed.why != rPlain.why || rServed.why != "migrate@1" {
+		h.res.Violate(lib.Violation{Sig: "status-server-wrapper-changes-the-upgrade",
+			What: fmt.Sprintf("registry mm, migration 1 fails: without the status server %s / %s, under RunWithServer %s / %s (returned %v, %d calls, returned in time: %v)",
+				rPlain.why, rPlain.disk, rServed.why, rServed.disk, got, calls, ok), Replay: sp})
 	}
 }
